@@ -48,6 +48,16 @@ class _PoolThread:
         self.sem.release()
 
 
+def _forget_pool_after_fork():
+    # a forked child has only the forking thread: the pooled threads do not exist there
+    _idle.clear()
+
+
+import os as _os  # noqa: E402
+
+_os.register_at_fork(after_in_child=_forget_pool_after_fork)
+
+
 def _run_on_pool(job):
     w = _idle.pop() if _idle else _PoolThread()
     w.submit(job)
